@@ -28,7 +28,7 @@ def handle (j : Json) : Json :=
       | Node.dir => Json.arr #[Json.str r.1, Json.str "dir", Json.null]
       | Node.link t => Json.arr #[Json.str r.1, Json.str "link", Json.str t]))),
     ("error", match e with
-      | some w => Json.str w
+      | some w => Json.str w.name
       | none => Json.null)]
 
 def main : IO Unit := Kapture.Driver.run handle
